@@ -15,6 +15,11 @@ func main() {
 		cmdProbe(os.Args[2])
 		return
 	}
+	if len(os.Args) >= 3 && os.Args[1] == "c19stress" {
+		n, _ := strconv.Atoi(os.Args[2])
+		cmdC19Stress(n)
+		return
+	}
 	if len(os.Args) >= 3 && os.Args[1] == "probetok" {
 		cmdProbeTok(os.Args[2:])
 		return
